@@ -2,6 +2,7 @@ import ThermoVerif.Model.ReactionAlgebra
 import Mathlib.Tactic.Ring
 import Mathlib.Tactic.FieldSimp
 import Mathlib.Tactic.Linarith
+import Mathlib.Tactic.LinearCombination
 import Mathlib.Algebra.Order.Field.Basic
 
 set_option linter.unusedSectionVars false
@@ -701,5 +702,267 @@ theorem valOf_normal (s : Store α) (hin : ∀ id r, s.rxn? id = .ok r → (s.va
 def makesFresh (s : Store α) (op : Op α) : Prop :=
   (s.pureOp op).isSome ∨ ∃ sid order, op = .reduce sid order
 
+
+/-! ### `ParallelReaction.reduce`: pointwise sums -/
+
+/-- total change of entry `i` caused by a list of reactions applied in parallel to the feed `n` -/
+def dAt (rs : List (RVal α)) (n : List α) (i : Nat) : α :=
+  (rs.map (fun a => a.x * n.getD a.ridx 0 * a.v.getD i 0)).sum
+
+def triples (rs : List (RVal α)) : List (List α × Nat × α) := rs.map (fun a => (a.v, a.ridx, a.x))
+
+theorem getD_of_ge (l : List α) (i : Nat) (h : l.length ≤ i) : l.getD i 0 = 0 := by
+  simp [List.getD, h]
+
+theorem ext_getD (l1 l2 : List α) (hl : l1.length = l2.length) (h : ∀ i, l1.getD i 0 = l2.getD i 0) :
+    l1 = l2 := by
+  apply List.ext_getElem hl
+  intro i h1 h2
+  have := h i
+  rwa [getD_of_lt l1 i h1, getD_of_lt l2 i h2] at this
+
+theorem zipWith_getD (f : α → α → α) (hf : f 0 0 = 0) (l1 l2 : List α) (hl : l1.length = l2.length) (i : Nat) :
+    (List.zipWith f l1 l2).getD i 0 = f (l1.getD i 0) (l2.getD i 0) := by
+  by_cases hi : i < l1.length
+  · have hi2 : i < l2.length := hl ▸ hi
+    rw [getD_of_lt _ i (by simp [hi, hi2]), getD_of_lt l1 i hi, getD_of_lt l2 i hi2]; simp
+  · have hi' := Nat.not_lt.mp hi
+    rw [getD_of_ge _ i (by simp [← hl, hi']), getD_of_ge l1 i hi', getD_of_ge l2 i (hl ▸ hi'), hf]
+
+theorem foldl_parallel (rs : List (RVal α)) (n : List α) (hlen : ∀ a ∈ rs, a.v.length = n.length) :
+    ∀ acc : List α, acc.length = n.length →
+      ((triples rs).foldl (fun acc (q : List α × Nat × α) =>
+          List.zipWith (fun ai vi => ai + q.2.2 * n.getD q.2.1 0 * vi) acc q.1) acc).length = n.length ∧
+      ∀ i, ((triples rs).foldl (fun acc (q : List α × Nat × α) =>
+          List.zipWith (fun ai vi => ai + q.2.2 * n.getD q.2.1 0 * vi) acc q.1) acc).getD i 0
+        = acc.getD i 0 + dAt rs n i := by
+  induction rs with
+  | nil => intro acc h; exact ⟨by simpa [triples] using h, fun i => by simp [triples, dAt]⟩
+  | cons a rs ih =>
+    intro acc hacc
+    have ha := hlen a (List.mem_cons_self)
+    have ih' := ih (fun b hb => hlen b (List.mem_cons_of_mem _ hb))
+      (List.zipWith (fun ai vi => ai + a.x * n.getD a.ridx 0 * vi) acc a.v) (by simp [hacc, ha])
+    simp only [triples, List.map_cons, List.foldl_cons] at ih' ⊢
+    refine ⟨ih'.1, fun i => ?_⟩
+    rw [ih'.2 i, zipWith_getD _ (by simp) acc a.v (by rw [hacc, ha]) i]
+    simp only [dAt, List.map_cons, List.sum_cons]
+    ring
+
+theorem parallel_getD (rs : List (RVal α)) (n : List α) (hlen : ∀ a ∈ rs, a.v.length = n.length) :
+    (parallel (triples rs) n).length = n.length ∧
+    ∀ i, (parallel (triples rs) n).getD i 0 = n.getD i 0 + dAt rs n i :=
+  foldl_parallel rs n hlen n rfl
+
+theorem allZero_getD (v : List α) (h : allZero v = true) (i : Nat) : v.getD i 0 = 0 := by
+  by_cases hi : i < v.length
+  · rw [getD_of_lt v i hi]
+    simp only [allZero, List.all_eq_true, decide_eq_true_eq] at h
+    exact h _ (List.getElem_mem hi)
+  · exact getD_of_ge v i (Nat.not_lt.mp hi)
+
+theorem comb_getD_all (va vb : List α) (xa xb : α) (hl : va.length = vb.length) (i : Nat) :
+    (comb false va xa vb xb).getD i 0 = va.getD i 0 * xa + vb.getD i 0 * xb := by
+  unfold comb
+  rw [zipWith_getD _ (by simp) va vb hl i]
+  simp
+
+/-- state of the running sum inside one group of `reduce` -/
+def Good (r L : Nat) (acc : RVal α) : Prop :=
+  acc.ridx = r ∧ acc.v.length = L ∧ (acc.v.getD r 0 = -1 ∨ (allZero acc.v = true ∧ acc.x = 0))
+
+theorem addSub_step (mw : List α) (acc b acc' : RVal α) (r L : Nat) (hg : Good r L acc)
+    (hb : b.v.getD b.ridx 0 = -1) (hbr : b.ridx = r) (hbl : b.v.length = L)
+    (hbasis : b.basis = acc.basis) (hph : acc.ph = b.ph)
+    (h : acc.addSub mw false (some b) = .ok acc') :
+    Good r L acc' ∧ acc'.basis = acc.basis ∧ acc'.ph = acc.ph ∧
+      ∀ i, acc'.x * acc'.v.getD i 0 = acc.x * acc.v.getD i 0 + b.x * b.v.getD i 0 := by
+  obtain ⟨hr, hL, hgood⟩ := hg
+  cases hre : b.hasReaction
+  · rw [addSub_noReaction mw false acc b hre] at h
+    have := Except.ok.inj h; subst this
+    have hbx := hasReaction_false_x b b.ridx hb hre
+    exact ⟨⟨hr, hL, hgood⟩, rfl, rfl, fun i => by rw [hbx]; ring⟩
+  · have hbx : b.x ≠ 0 := by
+      intro e; simp [RVal.hasReaction, e] at hre
+    have hl : acc.v.length = b.v.length := by rw [hL, hbl]
+    have hsr : (comb false acc.v acc.x b.v b.x).getD r 0 = acc.v.getD r 0 * acc.x - b.x := by
+      rw [comb_getD_all _ _ _ _ hl r, ← hbr, hb]; ring
+    unfold RVal.addSub at h
+    simp only [hre, Bool.not_true, Bool.false_eq_true, if_false,
+      compat_same mw acc b hbasis hph (by rw [hr, hbr])] at h
+    cases hc : combineV false acc.v acc.x b.v b.x b.ridx with
+    | error e => rw [hc] at h; exact absurd h (by simp)
+    | ok v =>
+      rw [hc] at h
+      have := Except.ok.inj h; subst this
+      rw [combineV_def] at hc
+      split at hc
+      · -- everything cancels
+        rename_i hz
+        have := Except.ok.inj hc; subst this
+        have hz0 := allZero_getD _ hz
+        have hx0 : acc.x + b.x = 0 := by
+          have h0 := hz0 r
+          rw [hsr] at h0
+          rcases hgood with hn | ⟨hzz, hx⟩
+          · rw [hn] at h0; linear_combination -h0
+          · rw [allZero_getD _ hzz r, hx] at h0; exfalso; apply hbx; linear_combination -h0
+        refine ⟨⟨hr, by simp [comb, hL, hbl], Or.inr ⟨hz, by simpa using hx0⟩⟩, rfl, rfl, fun i => ?_⟩
+        have h0 := hz0 i
+        rw [comb_getD_all _ _ _ _ hl i] at h0
+        simp only []
+        rw [hz0 i]; linear_combination -h0
+      · rw [hbr, hsr] at hc
+        split at hc; · exact absurd hc (by simp)
+        rename_i hd
+        have := Except.ok.inj hc; subst this
+        have hd' : acc.x + b.x = -(acc.v.getD r 0 * acc.x - b.x) ∧ acc.x + b.x ≠ 0 := by
+          rcases hgood with hn | ⟨hzz, hx⟩
+          · rw [hn] at hd ⊢
+            exact ⟨by ring, fun e => hd (by linear_combination e)⟩
+          · rw [allZero_getD _ hzz r, hx] at hd ⊢
+            exact ⟨by ring, by simpa using hbx⟩
+        refine ⟨⟨hr, by simp [comb, hL, hbl], Or.inl ?_⟩, rfl, rfl, fun i => ?_⟩
+        · simp only []
+          rw [getD_map_div, hsr]
+          have : acc.v.getD r 0 * acc.x - b.x ≠ 0 := fun e => hd (by rw [e]; simp)
+          field_simp
+        · simp only []
+          rw [getD_map_div, comb_getD_all _ _ _ _ hl i, ← hd'.1]
+          have := hd'.2
+          field_simp
+
+/-- one group of `reduce`: the conversion-weighted stoichiometry of the merged reaction is the sum of
+the members' -/
+theorem reduceGroup_sum (mw : List α) (r L : Nat) (basis : Basis) (ph : Nat) :
+    ∀ (rest : List (RVal α)) (acc g : RVal α), Good r L acc → acc.basis = basis → acc.ph = ph →
+      (∀ b ∈ rest, b.v.getD b.ridx 0 = -1 ∧ b.ridx = r ∧ b.v.length = L ∧ b.basis = basis ∧ b.ph = ph) →
+      reduceGroup mw acc rest = .ok g →
+      Good r L g ∧ ∀ i, g.x * g.v.getD i 0 = acc.x * acc.v.getD i 0 + (rest.map (fun b => b.x * b.v.getD i 0)).sum := by
+  intro rest
+  induction rest with
+  | nil =>
+    intro acc g hg _ _ _ h
+    simp only [reduceGroup] at h
+    have := Except.ok.inj h; subst this
+    exact ⟨hg, fun i => by simp⟩
+  | cons b rest ih =>
+    intro acc g hg hbasis hph hall h
+    simp only [reduceGroup] at h
+    split at h; · exact absurd h (by simp)
+    rename_i acc' hacc'
+    obtain ⟨hb1, hb2, hb3, hb4, hb5⟩ := hall b List.mem_cons_self
+    obtain ⟨hg', hbs', hph', hsum⟩ := addSub_step mw acc b acc' r L hg hb1 hb2 hb3 (by rw [hb4, hbasis])
+      (by rw [hph, hb5]) hacc'
+    obtain ⟨hgg, hs⟩ := ih acc' g hg' (by rw [hbs', hbasis]) (by rw [hph', hph])
+      (fun c hc => hall c (List.mem_cons_of_mem _ hc)) h
+    refine ⟨hgg, fun i => ?_⟩
+    rw [hs i, hsum i]
+    simp only [List.map_cons, List.sum_cons]
+    ring
+
+theorem sum_ite_single (f : α) (k0 : Nat) : ∀ (order : List Nat), order.Nodup → k0 ∈ order →
+    (order.map (fun k => if k0 = k then f else 0)).sum = f := by
+  intro order
+  induction order with
+  | nil => intro _ h; simp at h
+  | cons k ks ih =>
+    intro hn hm
+    rw [List.nodup_cons] at hn
+    simp only [List.map_cons, List.sum_cons]
+    by_cases hk : k0 = k
+    · subst hk
+      have : (ks.map (fun k => if k0 = k then f else 0)).sum = 0 := by
+        apply List.sum_eq_zero
+        intro x hx
+        simp only [List.mem_map] at hx
+        obtain ⟨k, hk, rfl⟩ := hx
+        have : k0 ≠ k := fun e => hn.1 (e ▸ hk)
+        simp [this]
+      simp [this]
+    · have hm' : k0 ∈ ks := by
+        rcases List.mem_cons.mp hm with e | e
+        · exact absurd e hk
+        · exact e
+      simp [hk, ih hn.2 hm']
+
+/-- summing group by group (keys without repetition, every member's key listed) is summing everything -/
+theorem sum_partition (f : RVal α → α) (order : List Nat) (hn : order.Nodup) :
+    ∀ (ms : List (RVal α)), (∀ a ∈ ms, a.ridx ∈ order) →
+      (order.map (fun k => ((ms.filter (fun m => decide (m.ridx = k))).map f).sum)).sum = (ms.map f).sum := by
+  intro ms
+  induction ms with
+  | nil => intro _; simp
+  | cons a ms ih =>
+    intro hall
+    have ha := hall a List.mem_cons_self
+    have ih' := ih (fun b hb => hall b (List.mem_cons_of_mem _ hb))
+    have hsplit : ∀ k, (((a :: ms).filter (fun m => decide (m.ridx = k))).map f).sum
+        = (if a.ridx = k then f a else 0) + ((ms.filter (fun m => decide (m.ridx = k))).map f).sum := by
+      intro k
+      by_cases hk : a.ridx = k <;> simp [List.filter_cons, hk]
+    simp only [hsplit]
+    rw [List.sum_map_add, sum_ite_single (f a) a.ridx order hn ha, ih']
+    simp
+
+theorem sum_same_key (n : List α) (k i : Nat) : ∀ (l : List (RVal α)), (∀ a ∈ l, a.ridx = k) →
+    (l.map (fun a => a.x * n.getD a.ridx 0 * a.v.getD i 0)).sum
+      = n.getD k 0 * (l.map (fun a => a.x * a.v.getD i 0)).sum := by
+  intro l
+  induction l with
+  | nil => intro _; simp
+  | cons a l ih =>
+    intro h
+    simp only [List.map_cons, List.sum_cons]
+    rw [ih (fun b hb => h b (List.mem_cons_of_mem _ hb)), h a List.mem_cons_self]
+    ring
+
+theorem reduceVals_dAt (mw : List α) (ms : List (RVal α)) (n : List α) (basis : Basis) (ph : Nat)
+    (hall : ∀ a ∈ ms, a.v.getD a.ridx 0 = -1 ∧ a.v.length = n.length ∧ a.basis = basis ∧ a.ph = ph) :
+    ∀ (order : List Nat) (vs : List (RVal α)), reduceVals mw ms order = .ok vs →
+      (∀ g ∈ vs, g.v.length = n.length) ∧
+      ∀ i, dAt vs n i = (order.map (fun k => ((ms.filter (fun m => decide (m.ridx = k))).map
+                          (fun a => a.x * n.getD a.ridx 0 * a.v.getD i 0)).sum)).sum := by
+  intro order
+  induction order with
+  | nil =>
+    intro vs h
+    simp only [reduceVals] at h
+    have := Except.ok.inj h; subst this
+    exact ⟨by simp, fun i => by simp [dAt]⟩
+  | cons k ks ih =>
+    intro vs h
+    simp only [reduceVals] at h
+    split at h
+    · exact absurd h (by simp)
+    · rename_i m rest hf
+      split at h; · exact absurd h (by simp)
+      rename_i g hg
+      split at h; · exact absurd h (by simp)
+      rename_i rs hrs
+      have := Except.ok.inj h; subst this
+      have hmem : ∀ a ∈ m :: rest, a ∈ ms ∧ a.ridx = k := by
+        intro a ha
+        rw [← hf] at ha
+        simpa using List.mem_filter.mp ha
+      obtain ⟨hm1, hm2, hm3, hm4⟩ := hall m (hmem m List.mem_cons_self).1
+      have hmk := (hmem m List.mem_cons_self).2
+      have hgood : Good k n.length m := ⟨hmk, hm2, Or.inl (hmk ▸ hm1)⟩
+      obtain ⟨hgg, hs⟩ := reduceGroup_sum mw k n.length basis ph rest m g hgood hm3 hm4
+        (fun b hb => by
+          obtain ⟨hb0, hbk⟩ := hmem b (List.mem_cons_of_mem _ hb)
+          obtain ⟨h1, h2, h3, h4⟩ := hall b hb0
+          exact ⟨h1, hbk, h2, h3, h4⟩) hg
+      obtain ⟨ihl, ihs⟩ := ih rs hrs
+      refine ⟨fun q hq => ?_, fun i => ?_⟩
+      · rcases List.mem_cons.mp hq with rfl | hq
+        · exact hgg.2.1
+        · exact ihl q hq
+      · simp only [dAt, List.map_cons, List.sum_cons] at ihs ⊢
+        rw [ihs i, hf, sum_same_key n k i (m :: rest) (fun a ha => (hmem a ha).2)]
+        simp only [List.map_cons, List.sum_cons]
+        rw [hgg.1, ← hs i]
+        ring
 
 end ThermoVerif.ReactionAlgebra
